@@ -18,7 +18,7 @@ IsEvent(e) == More /\ Ev.e = e /\ l' = l + 1
 Obs0 == [phase |-> "idle", hung |-> {}, extra |-> 0, touched |-> 0, shown |-> TRUE, n |-> 0, nsame |-> 0,
          stop |-> "none", stopdel |-> FALSE, pause |-> FALSE, silence |-> FALSE, left |-> 0,
          ms |-> [r \in Roles |-> 0], since |-> [r \in Roles |-> -1], npresent |-> 0, keptok |-> TRUE,
-         timeout |-> 0, run |-> -1]
+         timeout |-> 0, run |-> -1, fkind |-> "none", prehs |-> FALSE]
 
 (* one abstract one-block file stands for the whole named tree: DstSame(1) <=> every entry same *)
 OneFile == <<[dir |-> FALSE, size |-> 1, comp |-> FALSE]>>
@@ -46,7 +46,8 @@ TReset ==
     /\ dst' = [f \in 1..1 |-> Empty] /\ made' = {} /\ result' = [r \in Roles |-> "run"]
     /\ faults' = Ev.nfaults /\ told' = [r \in Roles |-> FALSE]
     /\ obs' = [Obs0 EXCEPT !.phase = "running", !.stop = Ev.stop, !.stopdel = Ev.stopdel, !.pause = Ev.pause,
-                           !.silence = Ev.silence, !.timeout = Ev.timeout, !.run = Ev.run]
+                           !.silence = Ev.silence, !.timeout = Ev.timeout, !.run = Ev.run,
+                           !.fkind = Ev.fkind, !.prehs = Ev.prehs]
 
 (* internal / steering events are consumed without effect at this level *)
 TSkip ==
@@ -103,6 +104,15 @@ ObsRcv == IF cf.upload THEN "V" ELSE "C"
 ObsDeleteExact == (Judged /\ Stopped /\ obs.stopdel /\ result[ObsRcv] # "ok" /\ result["C"] # "ok")
                       => (obs.npresent = 0 /\ obs.touched = 0)
 ObsKeepIntact == (Judged /\ Stopped /\ ~obs.stopdel) => (obs.keptok /\ obs.touched = 0)
+
+(* C11.  A role notices silence after one read time-out (the client's default 20 s while it has *)
+(* not yet received the configuration), drains (<= 500 ms, the server another 500 ms) and      *)
+(* returns; its fail line ends the peer.                                                       *)
+FaultBoundMs == (IF obs.prehs THEN 20000 ELSE obs.timeout * 1000) + 1500 + 8000
+Faulted == obs.silence
+ObsReturnInTime == (Judged /\ Faulted) => (obs.hung = {} /\ \A r \in Roles : obs.since[r] <= FaultBoundMs)
+ObsPeerTold == (Judged /\ Faulted /\ \E r \in Roles : result[r] = "fail") => \E r \in Roles : told[r]
+ObsNoWorkerLeft == Judged => obs.left = 0
 
 HW == IF l > TLCGet(1) THEN TLCSet(1, l) ELSE TRUE
 ASSUME TLCSet(1, 0)
